@@ -370,4 +370,87 @@ theorem interval_back_in_domain_tan_exact (t : IT ℝ) (hh : t.hyper = false) (h
     t.lo < IT.getOriginal Real.pi t ∧ IT.getOriginal Real.pi t < t.hi :=
   interval_back_in_domain_tan Real.pi le_rfl t hh hb
 
+/-- the library's constant is (slightly) smaller than π, so `interval_back_in_domain_tan` does not
+apply; what holds is the guarded form: the back-transformed value is strictly inside as long as
+`|x / scale| ≤ 10^15` (the property's region is `|x / scale| ≤ 300`).  Missing for the full
+statement: coordinates beyond `tan (PI()/2) ≈ 1.6·10^16`, where the value leaves the interval by
+less than `(π - PI())/(2 PI())·(hi - lo)` (`interval_back_in_domain_tan_general`); the witness is
+`interval_tan_lib_leaves_domain`. -/
+theorem interval_back_in_domain_tan_lib_partial (t : IT ℝ) (hh : t.hyper = false) (hb : t.lo < t.hi)
+    (hg : |t.x / t.scale| ≤ 10 ^ 15) :
+    t.lo < IT.getOriginal libPI t ∧ IT.getOriginal libPI t < t.hi := by
+  have hgo : IT.getOriginal libPI t = IT.gt libPI t.scale t.lo t.hi t.x := by
+    have := IT.getOriginal_at libPI t t.x; simpa [hh] using this
+  rw [hgo]
+  exact IT.gt_mem_of_angle libPI _ _ _ _ libPI_pos hb (arctan_abs_lt_libPI_half hg)
+
+/-- the guard above cannot be dropped: for a coordinate far enough the value is below the lower
+bound (in exact arithmetic; by less than 2·10⁻¹⁷ interval widths) -/
+theorem interval_tan_lib_leaves_domain (t : IT ℝ) (hh : t.hyper = false) (hs : 0 < t.scale)
+    (hb : t.lo < t.hi) : ∃ x, IT.getOriginal libPI (t.at x) < t.lo := by
+  -- an angle θ with -π/2 < θ < -PI()/2
+  have hlt := libPI_lt_pi
+  have hpos := libPI_pos
+  set θ : ℝ := -((Real.pi / 2 + libPI / 2) / 2) with hθ
+  have h1 : -(Real.pi / 2) < θ := by rw [hθ]; linarith
+  have h2 : θ < -(libPI / 2) := by rw [hθ]; linarith
+  refine ⟨t.scale * Real.tan θ, ?_⟩
+  rw [IT.getOriginal_at]; simp only [hh, if_false, Bool.false_eq_true]
+  unfold IT.gt
+  rw [mul_div_cancel_left₀ _ hs.ne', Real.arctan_tan h1 (by linarith [Real.pi_pos])]
+  have hw : 0 < t.hi - t.lo := by linarith
+  have : (θ + libPI / 2) * (t.hi - t.lo) / libPI < 0 := by
+    apply div_neg_of_neg_of_pos _ hpos
+    exact mul_neg_of_neg_of_pos (by linarith) hw
+  linarith
+
+/-! ## Interval transform: monotonicity and derivatives (both variants) -/
+
+/-- the back-transformation is strictly increasing in the coordinate -/
+theorem interval_strict_mono (pi : ℝ) (t : IT ℝ) (hs : 0 < t.scale) (hb : t.lo < t.hi)
+    (hpi : t.hyper = false → 0 < pi) : StrictMono (fun x => IT.getOriginal pi (t.at x)) := by
+  have e : (fun x => IT.getOriginal pi (t.at x)) =
+      fun x => if t.hyper then IT.gh t.scale t.lo t.hi x else IT.gt pi t.scale t.lo t.hi x := by
+    funext x; exact IT.getOriginal_at pi t x
+  rw [e]
+  cases hh : t.hyper
+  · simpa using IT.gt_strictMono pi t.scale t.lo t.hi (hpi hh) hs hb
+  · simpa using IT.gh_strictMono t.scale t.lo t.hi hs hb
+
+/-- `getFirstOrderDerivative` is the derivative of the back-transformation -/
+theorem interval_d1_is_derivative (pi : ℝ) (t : IT ℝ) (_hs : t.scale ≠ 0)
+    (_hpi : t.hyper = false → pi ≠ 0) :
+    HasDerivAt (fun x => IT.getOriginal pi (t.at x)) (IT.d1 pi t) t.x := by
+  have e : (fun x => IT.getOriginal pi (t.at x)) =
+      fun x => if t.hyper then IT.gh t.scale t.lo t.hi x else IT.gt pi t.scale t.lo t.hi x := by
+    funext x; exact IT.getOriginal_at pi t x
+  have e1 := IT.d1_at pi t t.x
+  rw [IT.at_self] at e1
+  rw [e, e1]
+  cases hh : t.hyper
+  · simpa [IT.gt'] using IT.gt_hasDerivAt pi t.scale t.lo t.hi t.x
+  · simpa [IT.gh'] using IT.gh_hasDerivAt t.scale t.lo t.hi t.x
+
+/-- `getSecondOrderDerivative` is the derivative of `getFirstOrderDerivative` -/
+theorem interval_d2_is_derivative (pi : ℝ) (t : IT ℝ) (_hs : t.scale ≠ 0)
+    (_hpi : t.hyper = false → pi ≠ 0) :
+    HasDerivAt (fun x => IT.d1 pi (t.at x)) (IT.d2 pi t) t.x := by
+  have e : (fun x => IT.d1 pi (t.at x)) =
+      fun x => if t.hyper then IT.gh' t.scale t.lo t.hi x else IT.gt' pi t.scale t.lo t.hi x := by
+    funext x; exact IT.d1_at pi t x
+  rw [e, IT.d2_real]
+  cases hh : t.hyper
+  · simpa using IT.gt'_hasDerivAt pi t.scale t.lo t.hi t.x
+  · simpa using IT.gh'_hasDerivAt t.scale t.lo t.hi t.x
+
+/-! ## Placebo transform -/
+
+/-- parameters without an interval constraint pass through unchanged, with derivative 1 and 0 -/
+theorem placebo_identity (pi v : ℝ) :
+    (TP.placebo v : TP ℝ).getOriginal pi = v ∧ (TP.placebo v : TP ℝ).x = v ∧
+    (TP.placebo v : TP ℝ).d1 pi = 1 ∧ (TP.placebo v : TP ℝ).d2 pi = 0 ∧
+    (∀ x w, ((TP.p x : TP ℝ).setOriginal pi w) = some (.p w)) ∧
+    (∀ x w, ((TP.p x : TP ℝ).setX w).getOriginal pi = w) := by
+  simp [TP.placebo, TP.getOriginal, TP.x, TP.d1, TP.d2, TP.setOriginal, TP.setX]
+
 end Bpp.C11
